@@ -470,9 +470,53 @@ class _PushNot(ast.NodeTransformer):
             return ast.copy_location(ast.Compare(left=c.left, ops=[_COMPL[type(c.ops[0])]()], comparators=c.comparators), node)
         return node
 
+    _OPS = {"gt": ast.Gt, "lt": ast.Lt, "ge": ast.GtE, "le": ast.LtE, "eq": ast.Eq, "ne": ast.NotEq}
+
+    def visit_ListComp(self, node):
+        # `[x for x in X]` is `list(X)`
+        self.generic_visit(node)
+        if len(node.generators) == 1 and not node.generators[0].ifs and not node.generators[0].is_async and isinstance(node.elt, ast.Name) and isinstance(node.generators[0].target, ast.Name) \
+                and node.elt.id == node.generators[0].target.id:
+            self.n += 1
+            return ast.copy_location(ast.Call(func=ast.Name(id="list", ctx=ast.Load()), args=[node.generators[0].iter], keywords=[]), node)
+        return node
+
+    def visit_DictComp(self, node):
+        # `{k: v for k, v in X.items()}` is `dict(X)`
+        self.generic_visit(node)
+        g = node.generators[0]
+        if len(node.generators) == 1 and not g.ifs and not g.is_async and isinstance(g.target, ast.Tuple) and len(g.target.elts) == 2 and all(isinstance(e, ast.Name) for e in g.target.elts) \
+                and isinstance(node.key, ast.Name) and isinstance(node.value, ast.Name) and (node.key.id, node.value.id) == (g.target.elts[0].id, g.target.elts[1].id) and node.key.id != node.value.id \
+                and isinstance(g.iter, ast.Call) and isinstance(g.iter.func, ast.Attribute) and g.iter.func.attr == "items" and not g.iter.args and not g.iter.keywords:
+            self.n += 1
+            return ast.copy_location(ast.Call(func=ast.Name(id="dict", ctx=ast.Load()), args=[g.iter.func.value], keywords=[]), node)
+        return node
+
     def visit_Call(self, node):
         # `list()` / `dict()` / `tuple()` without argument are the empty displays
         self.generic_visit(node)
+        # operator.gt(a, b) is a > b; attrgetter('x') is lambda n: n.x
+        if isinstance(node.func, ast.Attribute) and isinstance(node.func.value, ast.Name) and node.func.value.id == "operator" and not node.keywords:
+            if node.func.attr in self._OPS and len(node.args) == 2 and not any(isinstance(a, ast.Starred) for a in node.args):
+                self.n += 1
+                return ast.copy_location(ast.Compare(left=node.args[0], ops=[self._OPS[node.func.attr]()], comparators=[node.args[1]]), node)
+        fn_name = node.func.attr if isinstance(node.func, ast.Attribute) and isinstance(node.func.value, ast.Name) and node.func.value.id == "operator" else (node.func.id if isinstance(node.func, ast.Name) else None)
+        if fn_name == "attrgetter" and len(node.args) == 1 and not node.keywords and isinstance(node.args[0], ast.Constant) and isinstance(node.args[0].value, str) and node.args[0].value.isidentifier():
+            self.n += 1
+            lam = ast.Lambda(args=ast.arguments(posonlyargs=[], args=[ast.arg(arg="n")], kwonlyargs=[], kw_defaults=[], defaults=[]),
+                             body=ast.Attribute(value=ast.Name(id="n", ctx=ast.Load()), attr=node.args[0].value, ctx=ast.Load()))
+            return ast.copy_location(lam, node)
+        if fn_name == "itemgetter" and len(node.args) == 1 and not node.keywords and isinstance(node.args[0], ast.Constant):
+            self.n += 1
+            lam = ast.Lambda(args=ast.arguments(posonlyargs=[], args=[ast.arg(arg="n")], kwonlyargs=[], kw_defaults=[], defaults=[]),
+                             body=ast.Subscript(value=ast.Name(id="n", ctx=ast.Load()), slice=node.args[0], ctx=ast.Load()))
+            return ast.copy_location(lam, node)
+        # zip(X, X[1:]) pairs the same consecutive elements as zip(X[:-1], X[1:]) (the repository's form)
+        if isinstance(node.func, ast.Name) and node.func.id == "zip" and len(node.args) == 2 and not node.keywords and isinstance(node.args[0], ast.Name) \
+                and _unparse(node.args[1]) == f"{node.args[0].id}[1:]":
+            self.n += 1
+            node.args[0] = ast.copy_location(ast.Subscript(value=node.args[0], slice=ast.Slice(lower=None, upper=ast.UnaryOp(op=ast.USub(), operand=ast.Constant(value=1)), step=None), ctx=ast.Load()), node.args[0])
+            return node
         # isinstance(x, (A, B)) is isinstance(x, A) or isinstance(x, B): the repository never uses the tuple form
         if isinstance(node.func, ast.Name) and node.func.id == "isinstance" and len(node.args) == 2 and isinstance(node.args[1], ast.Tuple) and len(node.args[1].elts) >= 2 and not node.keywords:
             self.n += 1
@@ -529,8 +573,10 @@ class _PushNot(ast.NodeTransformer):
 
 def normalise_module(tree, module_name: str) -> int:
     from . import normalise2 as N2
+    from . import normalise3 as N3
     pn = _PushNot()
     pn.visit(tree)
+    pn.n += N3.merge_dict_updates(tree)
     ref = load_ref().get(module_name)
     if not ref:
         return pn.n
@@ -548,7 +594,7 @@ def normalise_module(tree, module_name: str) -> int:
         if r:
             if "guards" in r:
                 n += normalise_function(fn, r)
-                for step in (N2.merge_branch_assignments, N2.inline_new_locals, N2.inline_new_locals, N2._ifexp_calls, N2.ifexp_tests, N2.split_ifexp_statements, N2.expand_new_comprehensions, N2.contract_known_loops, N2.inline_new_locals, N2.contract_known_ifexp, N2.unguard, N2.guardify):
+                for step in (N3.expand_next, N3.split_new_tuple_assigns, N3.dup_tails, N3.split_flagged_branches, N2.merge_branch_assignments, N2.inline_new_locals, N2.inline_new_locals, N2._ifexp_calls, N2.ifexp_tests, N2.split_ifexp_statements, N2.expand_new_comprehensions, N2.contract_known_loops, N2.inline_new_locals, N2.contract_known_ifexp, N2.unguard, N2.guardify):
                     try:
                         n += step(fn, r)
                     except Exception:   # pragma: no cover
@@ -570,6 +616,8 @@ def build_reference(modules: Dict[str, ast.AST]) -> dict:
     out = {}
     for name, tree in sorted(modules.items()):
         _PushNot().visit(tree)   # texts are compared after the unconditional canonicalisation
+        from . import normalise3 as N3
+        N3.merge_dict_updates(tree)
         fs = {}
         for q, fn in functions_of(tree):
             fs[q] = shape(fn)
